@@ -7,7 +7,12 @@ All observation is done from here (harness side, no source hook): the sqlite3 tr
 connections (every statement sqlite runs, including the implicit BEGIN / COMMIT of the python driver and every
 statement inside executescript), wrappers around Database.execute/executescript/commit (call boundaries) and
 around the four insert methods (the acknowledgement point of a record) and around Database.__enter__/__exit__
-(the "with database:" blocks that defer commits).
+(the "with database:" blocks that defer commits).  The sqlite connection of every Database is reached through a
+forwarding proxy (set by the wrapped Database._connect): it logs a COMMIT that sqlite FAILS - whatever the code does
+with the exception afterwards - together with whether sqlite rolled the transaction back, and it is the place where
+the configured fault is injected: the n-th COMMIT after the first item (and the ones after it) is refused the way
+sqlite refuses it when the volume is full (transaction rolled back, OperationalError) or when the file is locked
+(transaction kept, OperationalError).
 
 usage: python c19_child.py <config.json>
 """
@@ -30,6 +35,9 @@ def main():
     fd = os.open(cfg["log"], os.O_WRONLY | os.O_APPEND | os.O_CREAT, 0o644)
     kill_at = cfg.get("kill_at")
     kill_rel = cfg.get("kill_rel")   # kill at the n-th distinct point after the first item of this process started
+    fault = cfg.get("fault")         # {"at": j, "n": m, "rb": bool}: COMMITs j .. j+m-1 after the first item fail
+    injecting = [False]
+    commits = [0]                    # COMMITs (of an open transaction) asked of sqlite since the first item started
     counter = [0]
     rel = [None]                     # distinct points since the first item started (None: not started)
 
@@ -79,11 +87,48 @@ def main():
     # ---- statement level: the sqlite trace callback fires when a statement starts to run
     orig_connect = Database._connect
 
+    class ConnectionProxy:
+        """Forwards everything to the sqlite3 connection; commit() reports (and on request produces) failures."""
+
+        def __init__(self, real, name):
+            object.__setattr__(self, "_real", real)
+            object.__setattr__(self, "_name", name)
+
+        def __getattr__(self, key):
+            return getattr(self._real, key)
+
+        def __setattr__(self, key, value):
+            setattr(self._real, key, value)
+
+        def commit(self):
+            real = self._real
+            if real.in_transaction and rel[0] is not None:
+                commits[0] += 1
+                if fault and fault["at"] <= commits[0] < fault["at"] + fault.get("n", 1):
+                    # the statement does not reach sqlite: the transaction is rolled back (what sqlite does when
+                    # the COMMIT hits a full volume / an I/O error) or kept (a locked file)
+                    if fault["rb"]:
+                        injecting[0] = True
+                        real.rollback()
+                        injecting[0] = False
+                    log({"e": "sqlfail", "db": self._name, "ran": False, "rb": not real.in_transaction,
+                         "injected": True})
+                    raise sqlite3.OperationalError("database or disk is full" if fault["rb"] else "database is locked")
+            try:
+                return real.commit()
+            except sqlite3.Error as e:
+                log({"e": "sqlfail", "db": self._name, "ran": True, "rb": not real.in_transaction,
+                     "exc": type(e).__name__, "msg": str(e)[:120]})
+                raise
+
     def connect(self):
         orig_connect(self)
         name = "att" if type(self).__name__ == "AttestationsDB" else "id"
+        self._connection = ConnectionProxy(self._connection, name)
 
         def on_statement(stmt):
+            if injecting[0]:
+                return      # the ROLLBACK by which the proxy imitates sqlite's own roll back of a failed COMMIT
             point("sql:%s:%s" % (name, stmt.strip()[:24]))
             head = stmt.lstrip()[:6].upper()
             if head != "SELECT" or "sqlite_master" in stmt:     # plain reads are crash points but carry no event
@@ -252,7 +297,15 @@ def main():
             from ipv8.attestation.tokentree.token import Token
             after = find_metadata(item["after"]) if item.get("after") else None
             previous = pseudonym.tree.genesis_hash if after is None else after.token_pointer
-            token = Token(previous, content_hash=hashlib.sha3_256(item["name"].encode()).digest(), private_key=owner)
+            form = item.get("form", "hash")
+            if form == "hash":
+                token = Token(previous, content_hash=hashlib.sha3_256(item["name"].encode()).digest(), private_key=owner)
+            else:
+                # the token carries its content ("full") or is the public form of that very token ("bare": the double
+                # pointer and the signature as Token.unserialize yields them) - one token, two byte strings
+                token = Token(previous, content=b"value of " + item["name"].encode(), private_key=owner)
+                if form == "bare":
+                    token = Token.unserialize(token.get_plaintext_signed(), owner.pub())
             md = Metadata(token.get_hash(), json.dumps({"name": item["name"]}).encode(), owner)
             atts = [(auths[a].pub(), Attestation.create(md, auths[a])) for a in item["auths"]]
             cred = pseudonym.add_credential(token, md, set(atts))
@@ -294,11 +347,26 @@ def main():
         try:
             outcome = do_item(item)
         except Gone as e:
+            if fault:
+                # the item builds on one that the injected fault made fail: the application leaves it out
+                log({"e": "item_skip", "i": i, "why": str(e)})
+                point("item-done:%d" % i)
+                continue
             log({"e": "item_abort", "i": i, "why": str(e)})
             break
+        except sqlite3.OperationalError as e:
+            # the database refused (a COMMIT failed): the application logs it and carries on, nothing the failed call
+            # was storing counts as stored
+            log({"e": "item_fail", "i": i, "exc": type(e).__name__, "msg": str(e)[:120]})
+            point("item-failed:%d" % i)
+            continue
         log({"e": outcome, "i": i})
         point("item-done:%d" % i)
 
+    if cfg.get("kill_end"):
+        log({"e": "kill", "k": "end", "at": "end-of-workload"})
+        os.kill(os.getpid(), signal.SIGKILL)
+        time.sleep(600)
     try:
         im.database.close()
         wdb.close()
@@ -308,7 +376,7 @@ def main():
              "distinct": distinct})
         os.close(fd)
         os._exit(0)
-    log({"e": "exit", "points": counter[0], "distinct": distinct})
+    log({"e": "exit", "points": counter[0], "distinct": distinct, "commits": commits[0]})
     os.close(fd)
 
 
